@@ -79,6 +79,11 @@ func c12Scenarios(thorough bool) []*c12Scenario {
 		{Name: "update;read||update", Clients: [][]*Stmt{{up("u1", 1, 2), rd(1, 4)}, {up("u2", 2, 3)}}},
 		// a statement that fails (unknown table) next to good ones: each caller gets the answer to ITS statement
 		{Name: "ddl/create(ta);insert;read||create(tb);insert;read", DDL: true},
+		// a multi-row UPDATE fed by the sequential scan (it locks the row behind the one it hands out) next to a
+		// writer of the following row and a reader of the updated rows
+		{Name: "scan-update[<=2]||update[3]||read[1,2]", Clients: [][]*Stmt{
+			{{Kind: "update", Table: "t", Set: []SetItem{{"v", "s1"}}, Where: ForceScan(Leaf{"k", "<=", k(2)})}},
+			{up("u2", 3, 3)}, {rd(1, 2)}}},
 		// a multi-row INSERT next to a reader of the table's tail: the reader sees none or all of the new rows
 		{Name: "insert[11,12]||scan-read[>=10]", Clients: [][]*Stmt{
 			{{Kind: "insert", Table: "t", Cols: []string{"k", "v"}, Rows: [][]any{{k(11), "n1"}, {k(12), "n2"}}}},
